@@ -64,21 +64,18 @@ theorem x_is_empty_sound (c : GC) (h : c.isEmpty = true) (E : String → Bool) :
 
 /-! ### What is false of the code (the model mirrors it): concrete witnesses, replayed on poetry-core -/
 
-/-- `g_result_wellformed` is FALSE: the union of two results of the algebra is a `MultiConstraint` of
-nothing — it admits everything, yet does not report `is_any` and prints as the empty string.
-Real code: `parse_constraint("!=a, !=b").union(parse_constraint("!=a, !=c")).union(parse_constraint("a"))`
-is `<MultiConstraint >`. (The meaning is still exact, so this does not contradict `g_union_exact`.) -/
-theorem g_result_wellformed_counterexample :
+/-- Regression of D5's residual (fixed in poetry-core 3372536): the union below used to be a
+`MultiConstraint` of nothing (admits everything, `is_any()` false, prints ""); it is `AnyConstraint` now. -/
+theorem g_union_no_empty_multi_regression :
     ∃ a b c r1 r2, parseConstraint "!=a, !=b" = .ok a ∧ parseConstraint "!=a, !=c" = .ok b ∧
       parseConstraint "a" = .ok c ∧ a.unionWith b = .ok r1 ∧ r1.unionWith c = .ok r2 ∧
-      r2 = .multi false [] ∧ r2.isAny = false ∧ r2.toStr = "" ∧ r2.wfG = true :=
-  ⟨_, _, _, _, _, rfl, rfl, rfl, rfl, rfl, rfl, rfl, rfl, rfl⟩
+      r1 = .multi false [⟨"a", .ne, false⟩] ∧ r2 = .any :=
+  ⟨_, _, _, _, _, rfl, rfl, rfl, rfl, rfl, rfl, rfl⟩
 
-/-- … and inverting that degenerate object gives a `UnionConstraint` of nothing, which is outside `wfG`
-and makes `union` INEXACT: `parse_constraint("a").union(<UnionConstraint >)` is `<UnionConstraint >`,
-which rejects `a`.  Hence `wfG` (non-empty unions) is a genuine hypothesis of `g_union_exact`, and
-`invert` does not preserve it. -/
-theorem g_union_after_degenerate_invert_counterexample :
+/-- Non-empty unions are a genuine hypothesis of `g_union_exact`: a `UnionConstraint` of nothing (what
+`MultiConstraint().invert()` builds; neither parser nor algebra produce it) makes `union` INEXACT:
+`parse_constraint("a").union(UnionConstraint())` is `<UnionConstraint >`, which rejects `a`. -/
+theorem g_union_empty_union_counterexample :
     ∃ c r, parseConstraint "a" = .ok c ∧ (GC.multi false []).invert = .ok (.union []) ∧
       c.unionWith (.union []) = .ok r ∧ r.den "a" = false ∧ c.den "a" = true :=
   ⟨_, _, rfl, rfl, rfl, by decide, by decide⟩
